@@ -68,6 +68,17 @@ def c16(A):
             if not ok:
                 o.bad("unjustified-success/%s" % r.op, "%s Deferred succeeded on input %r that contains no well-formed %s for it"
                       % (r.op, e0["data"][:24], need), f)
+    # pending requests are settled by the ordinary loss handling: none is left hanging
+    from .pub import c11
+    raw_steps = set(sev["step"] for (sev, evs) in A.steps if any(e["k"] == "in" and e.get("raw") for e in evs))
+    if raw_steps:
+        v11, _ = c11(A)
+        for x in v11:
+            if "pending-not-failed" in x.sig or "wrong-failure" in x.sig:
+                o.bad("left-hanging/" + x.sig.split(".", 1)[1], "after hostile input: " + x.msg, x.step)
+        for c in A.conns.values():
+            if c.i_lost is not None:
+                o.dec("losses_after_input")
     return o.result()
 
 
